@@ -30,6 +30,8 @@ def check(ctx: Ctx) -> None:
     for d in (eng, leg):
         acc[d.kind] = r1_r2(ctx, d)
     r3_normal_form(ctx)
+    from .c07 import engine_memo_rule
+    engine_memo_rule(ctx, 'C02.R2')
     r4_neutrality(ctx, eng)
     r5_survive(ctx, eng, leg, acc)
 
